@@ -359,6 +359,27 @@ func runAct(c ACase) (map[string]int, error) {
 			if pid == nil {
 				continue
 			}
+			// a plain local actor (not a cluster actor) on another member that happens to have the same
+			// kind/id: the Deactivation names the PID of the host, it is none of this actor's business
+			var twin *actor.PID
+			twinNode := -1
+			for _, n := range joinedList() {
+				if addr(n) != pid.Address && op.Sel%2 == 0 {
+					twinNode = n
+					break
+				}
+			}
+			if twinNode >= 0 {
+				i := strings.Index(pid.ID, "/")
+				twin = cls[twinNode].Engine().SpawnFunc(func(c *actor.Context) {
+					if m, ok := c.Message().(marker); ok {
+						close(m.ch)
+					}
+				}, pid.ID[:i], actor.WithID(pid.ID[i+1:]))
+				if cls[twinNode].Engine().Registry.GetPID(pid.ID[:i], pid.ID[i+1:]) == nil {
+					twin = nil
+				}
+			}
 			cls[via].Deactivate(pid)
 			cls[via].Members() // barrier: via's agent has broadcast the Deactivation
 			host := -1
@@ -392,6 +413,21 @@ func runAct(c ACase) (map[string]int, error) {
 					}
 					// Stopped is handled after the actor is unregistered
 				}
+			}
+			if twin != nil {
+				cls[twinNode].Members() // the twin's node has handled the Deactivation
+				m1 := marker{make(chan struct{})}
+				cls[twinNode].Engine().Send(twin, m1)
+				select {
+				case <-m1.ch:
+				case <-time.After(5 * time.Second):
+					if cls[twinNode].Engine().Registry.GetPID(kindOfID(twin.ID), idOfID(twin.ID)) == nil {
+						return nil, fmt.Errorf("%s: the deactivation of %v (hosted on %s) stopped a plain local actor with the same id on n%d", what, pid, pid.Address, twinNode)
+					}
+					return nil, fmt.Errorf("%w: the local twin did not answer", errInconclusive)
+				}
+				<-cls[twinNode].Engine().Poison(twin).Done()
+				feat["local-namesake-on-another-member"]++
 			}
 			delete(model, key)
 			feat["deactivate"]++
@@ -647,6 +683,9 @@ func genAct(t *rapid.T) ACase {
 	}
 	return c
 }
+
+func kindOfID(id string) string { return id[:strings.Index(id, "/")] }
+func idOfID(id string) string   { return id[strings.Index(id, "/")+1:] }
 
 // idStr: the three ids of the population; one of them contains the separator that joins kind and id
 // (ids are free-form strings: "lobby/7" is as good an id as "7")
